@@ -135,7 +135,7 @@ SrcCall(deliver) ==
   /\ UNCHANGED <<held, txn, cfg, hd, budget, cbud, cut>>
 DstCall(deliver, wrej) ==
   /\ Open /\ Polling /\ ~DstClosed /\ (Canon => turn = "D") /\ (deliver => sd # <<>>) /\ (Canon /\ sd # <<>> => deliver)
-  /\ wrej => (deliver /\ Head(sd).t = "FD" /\ "wrej" \in Faults /\ budget > 0)
+  /\ wrej => (deliver /\ Head(sd).t \in {"FD", "MD"} /\ "wrej" \in Faults /\ budget > 0)
   /\ LET pkt == IF deliver THEN Head(sd) ELSE None
          c == D!DstFsm(hd, cfg, pkt, Now, wrej)
          dr == D!DstDrain(c.h, -1) IN
